@@ -25,7 +25,7 @@ ALLOPS = ops.BINARY + ops.UNARY
 def floors(tier):
     f = {'distinct_nontrivial': 1500 if tier == 'quick' else 80000, 'keyword_calls_compared': 400, 'positional_calls_compared': 400,
          'sympy_subs_compared': 400, 'mixed_partitions': 150, 'all_symbolic': 50, 'string_coefficients': 40,
-         'name_order_differs_from_key_order': 200, 'blades_dropped_by_simplification_recorded': 20, 'graded_mode_cases': 100}
+         'name_order_differs_from_key_order': 200, 'blades_dropped_by_simplification_recorded': 20, 'graded_mode_cases': 100, 'sympy_number_coefficients': 60, 'negated_pair_coefficients': 60}
     for o in ALLOPS:
         f['op_' + o] = 20 if tier == 'quick' else 100
     return f
@@ -95,7 +95,7 @@ def one_case(ctx, alg, cfg, name, op):
             if rng.random() < 0.3:
                 ks = gen.permuted(rng, ks)
             keysets.append(ks)
-    mode = rng.choice(['mixed', 'mixed', 'mixed', 'allsym', 'strings', 'shared'])
+    mode = rng.choice(['mixed', 'mixed', 'mixed', 'allsym', 'strings', 'shared', 'symnum', 'negpairs'])
     if mode == 'shared' and arity == 2:
         keysets[1] = keysets[0] if rng.random() < 0.7 else gen.permuted(rng, keysets[0])
     names = rng.sample(NAMES, sum(len(k) for k in keysets))
@@ -111,6 +111,10 @@ def one_case(ctx, alg, cfg, name, op):
             nm = names[ni]
             ni += 1
             kind = 'sym' if mode == 'allsym' else rng.choice(('sym', 'sym', 'num', 'str' if mode == 'strings' else 'sym'))
+            if mode == 'symnum' and rng.random() < 0.5:
+                kind = 'symnum'        # a sympy Rational as coefficient: a sympy object without free symbols
+            if mode == 'negpairs':
+                kind = 'negpair'
             if kind == 'sym':
                 sv.append(sympy.Symbol(nm))
                 point[nm] = val
@@ -120,6 +124,16 @@ def one_case(ctx, alg, cfg, name, op):
                 sv.append(f'{nm}*2 + 1')
                 point[nm] = val
                 nv.append(val * 2 + 1)
+            elif kind == 'symnum':
+                sv.append(sympy.Rational(val.numerator, val.denominator))
+                nv.append(val)
+            elif kind == 'negpair':
+                # coefficients that are exact negations of each other: +c*t and -c*t for one symbol t per operand
+                t_name = names[ni - 1 - j] if j else nm
+                c0 = Fr(2) if j % 2 == 0 else Fr(-2)
+                point.setdefault(t_name, val)
+                sv.append(c0 * sympy.Symbol(t_name) if True else None)
+                nv.append(c0 * point[t_name])
             else:
                 sv.append(val)
                 nv.append(val)
@@ -169,7 +183,7 @@ def one_case(ctx, alg, cfg, name, op):
         return
     want = mv_dict(rn)
     ctx.count('op_' + op)
-    ctx.count({'mixed': 'mixed_partitions', 'allsym': 'all_symbolic', 'strings': 'string_coefficients', 'shared': 'shared_symbol_operands'}[mode]
+    ctx.count({'mixed': 'mixed_partitions', 'allsym': 'all_symbolic', 'strings': 'string_coefficients', 'shared': 'shared_symbol_operands', 'symnum': 'sympy_number_coefficients', 'negpairs': 'negated_pair_coefficients'}[mode]
               if mode != 'mixed' or any('num' in p for p in partition) else 'all_symbolic')
     ctx.case(cid)
     if ctx.evaluations % 60 == 1:
